@@ -94,6 +94,8 @@ func dispatch(kind string, args []*Sexp) (out *Sexp) {
 		return runSize19(args)
 	case "abort09":
 		return runAbort09(args)
+	case "run02":
+		return runRun02(args)
 	case "conc":
 		return runConc(args)
 	case "sharedump":
